@@ -3,6 +3,7 @@ package nfa
 import (
 	"fmt"
 	"regexp/syntax"
+	"unicode"
 
 	"github.com/coregx/coregex/internal/conv"
 )
@@ -248,8 +249,8 @@ func (c *Compiler) compileLiteral(re *syntax.Regexp) (start, end StateID, err er
 	var first = InvalidState
 
 	for _, r := range runes {
-		// For case-insensitive matching of ASCII letters, create alternation
-		if foldCase && isASCIILetter(r) {
+		// For case-insensitive matching, create alternation over the simple-fold orbit
+		if foldCase && unicode.SimpleFold(r) != r {
 			nextState, err := c.compileFoldCaseRune(r, prev, &first)
 			if err != nil {
 				return InvalidState, InvalidState, err
@@ -267,11 +268,14 @@ func (c *Compiler) compileLiteral(re *syntax.Regexp) (start, end StateID, err er
 	return first, prev, nil
 }
 
-// compileFoldCaseRune compiles a case-insensitive ASCII letter
-// by creating alternation between upper and lower case versions
+// compileFoldCaseRune compiles a case-insensitive letter
+// by creating alternation between all members of its simple-fold orbit
 func (c *Compiler) compileFoldCaseRune(r rune, prev StateID, first *StateID) (StateID, error) {
 	upper := toUpperASCII(r)
 	lower := toLowerASCII(r)
+	if !isASCIILetter(r) {
+		upper, lower = r, unicode.SimpleFold(r)
+	}
 
 	// Build UTF-8 sequences for both cases
 	upperStart, upperEnd, err := c.compileSingleRune(upper)
@@ -296,6 +300,22 @@ func (c *Compiler) compileFoldCaseRune(r rune, prev StateID, first *StateID) (St
 
 	// Create split state
 	split := c.builder.AddSplit(upperStart, lowerStart)
+
+	// Remaining members of the simple-fold orbit (non-ASCII letters such as é/É,
+	// and orbits longer than two such as k/K/U+212A or s/S/U+017F).
+	for f := unicode.SimpleFold(r); f != r; f = unicode.SimpleFold(f) {
+		if f == upper || f == lower {
+			continue
+		}
+		fStart, fEnd, err := c.compileSingleRune(f)
+		if err != nil {
+			return InvalidState, err
+		}
+		if err := c.builder.Patch(fEnd, nextState); err != nil {
+			return InvalidState, err
+		}
+		split = c.builder.AddSplit(split, fStart)
+	}
 
 	if prev == InvalidState {
 		// First character - split becomes the start
